@@ -8,6 +8,7 @@ hence `Pending()` is exact whenever no handler executes, `RunPending`'s loop con
 nothing is in flight, and a poll that dispatched a handler reports a positive count, never a timeout.
 -/
 import Sonic.Lemmas.LoopAcct
+import Sonic.Props.Ledger
 
 namespace Sonic.Props.C03
 open Sonic.Model.Loop
@@ -133,5 +134,26 @@ example : ∃ w, Reach [.obj 1 .stream, .callStart 11 1 .read 8, .ret .plain, .c
               ∧ w.pending = 0 := by
   refine ⟨_, rfl, ?_⟩
   decide
+
+/-! ### Over the API-level ledger (`Sonic.Props.Ledger`): interest bits ↔ operations in flight -/
+
+/-- **C03 (Pending() = operations in flight), at the API level.** See `Sonic.Props.Ledger`: the ledger knows nothing
+about interest bits or the counter, only which operations were started, completed, cancelled or closed. -/
+theorem C03_pending_is_operations_in_flight (evs : List Ev) (p q d : Int) (w : World) (l : Sonic.Spec.Ledger.L)
+    (h : run {} (evs ++ [.callPending, .ret (.pending p q d)]) = some w)
+    (hU : Sonic.Spec.Ledger.UsageOk {} (evs ++ [.callPending, .ret (.pending p q d)]))
+    (hl : Sonic.Spec.Ledger.run {} evs = some l) (hq : Sonic.Spec.Ledger.quiet l.stack = true) :
+    p = l.owed.length ∧ q = Sonic.Spec.Ledger.postsOwed l :=
+  Sonic.Props.Ledger.C03_pending_is_operations_in_flight evs p q d w l h hU hl hq
+
+/-- Every history of the model (documented usage) is accepted by the ledger, pending observations included. -/
+theorem C03_ledger_accepts_model (evs : List Ev) (w : World) (h : run {} evs = some w) (hU : Sonic.Spec.Ledger.UsageOk {} evs) :
+    Sonic.Spec.Ledger.accepts evs = true :=
+  Sonic.Props.Ledger.ledger_accepts_model evs w h hU
+
+/-- The ledger's owed operations are as many as the model's registered interests plus queued posts, in every reachable state. -/
+theorem C03_owed_is_registered (evs : List Ev) (w : World) (h : run {} evs = some w) (hU : Sonic.Spec.Ledger.UsageOk {} evs) :
+    ∃ l, Sonic.Spec.Ledger.run {} evs = some l ∧ (l.owed.length : Int) = bits w.objs + w.posts.length :=
+  Sonic.Props.Ledger.C03_owed_is_registered evs w h hU
 
 end Sonic.Props.C03
